@@ -497,6 +497,12 @@ impl World {
         }
     }
 
+    /// A panic was injected in this history (caught already, or still unwinding: destructors and cleaning actions that
+    /// run during the unwinding already see the leaked / skipped state the panic leaves behind).
+    pub fn is_degraded(&self) -> bool {
+        self.degraded.get() || self.fault_fired.get() > 0
+    }
+
     /// An oracle hit that ends the history has been recorded.
     pub fn failed(&self) -> bool {
         self.stop_now.get()
